@@ -98,17 +98,27 @@ class Ser:
         if self.depth > 8:
             fail('helper methods call each other too deeply', call)
         params = [a.arg for a in fn.args.args[1:]]
-        if call.keywords or len(call.args) != len(params) or fn.args.vararg or fn.args.kwarg or fn.args.kwonlyargs \
-                or fn.args.defaults or any(isinstance(a, ast.Starred) for a in call.args):
+        va = fn.args.vararg.arg if fn.args.vararg else None
+        if call.keywords or fn.args.kwarg or fn.args.kwonlyargs or fn.args.defaults or len(call.args) < len(params) \
+                or (va is None and len(call.args) != len(params)) \
+                or any(isinstance(a, ast.Starred) for a in call.args[:len(params)]):
             fail('helper call outside the subset', call)
-        if not all(isinstance(a, (ast.Name, ast.Constant)) for a in call.args):
-            fail('helper argument is not a name or a constant (evaluation order)', call)
         body = list(fn.body)
         if body and isinstance(body[0], ast.Expr) and isinstance(body[0].value, ast.Constant) and isinstance(body[0].value.value, str):
             body = body[1:]
         if body and isinstance(body[-1], ast.Return) and body[-1].value is None:
             body = body[:-1]
         sub = dict(zip(params, call.args))
+        if va is not None:
+            sub[va] = ast.Tuple(elts=list(call.args[len(params):]), ctx=ast.Load())
+        # an argument that is not a plain name/constant is evaluated at the call: substituting it is only the same
+        # thing when the helper is ONE statement that uses the parameter exactly once (nothing happens in between)
+        for pname, a in sub.items():
+            if isinstance(a, (ast.Name, ast.Constant)):
+                continue
+            uses = sum(1 for b in body for nd in ast.walk(b) if isinstance(nd, ast.Name) and nd.id == pname)
+            if len(body) != 1 or uses != 1:
+                fail('helper argument is an expression and the helper does not use it exactly once in a single statement', call)
         n = self.depth
 
         class T(ast.NodeTransformer):
@@ -160,13 +170,13 @@ class Ser:
             h = f'h{len(self.hoist)}'
             self.hoist.append((h, f'(py_index {self.expr(e.args[0], env)} (t_memory tr))'))
             return h
-        if isinstance(e, ast.ListComp) and len(e.generators) == 1 and not e.generators[0].ifs \
+        if isinstance(e, (ast.ListComp, ast.GeneratorExp)) and len(e.generators) == 1 and not e.generators[0].ifs \
                 and isinstance(e.generators[0].target, ast.Name) and not e.generators[0].is_async:
             g = e.generators[0]
             env2 = dict(env)
             env2[g.target.id] = 'elem'
             return f'(map (fun {cname(g.target.id)} => {self.expr(e.elt, env2)}) {self.expr(g.iter, env)})'
-        if isinstance(e, ast.List):
+        if isinstance(e, (ast.List, ast.Tuple)):
             return self.listdisplay(e, env)
         fail('expression outside the subset', e)
 
@@ -228,7 +238,7 @@ class Ser:
                 and len(st.value.args) == 1 and not st.value.keywords:
             a = st.value.args[0]
             if not (isinstance(a, ast.Call) and isinstance(a.func, ast.Name) and a.func.id == 'bytes' and len(a.args) == 1
-                    and isinstance(a.args[0], ast.List)):
+                    and isinstance(a.args[0], (ast.List, ast.Tuple))):
                 fail('write of something else than bytes([...])', st)
             self.hoist = []
             lst = self.listdisplay(a.args[0], env)
@@ -237,6 +247,20 @@ class Ser:
             for h, o in reversed(hoisted):
                 code = f'w_opt {o} (fun {h} => {code})'
             return code
+        if isinstance(st, ast.Assign) and len(st.targets) == 1 and isinstance(st.targets[0], ast.Name) \
+                and isinstance(st.value, ast.Call) and ast.unparse(st.value.func) == SYMDICT + '.setdefault' \
+                and len(st.value.args) == 2 and not st.value.keywords:
+            key, dflt = st.value.args
+            if 'index' in ast.unparse(dflt):
+                fail('setdefault default that may raise', st)
+            d = ast.parse(SYMDICT, mode='eval').body
+            import copy
+            guard = ast.If(test=ast.Compare(left=copy.deepcopy(key), ops=[ast.NotIn()], comparators=[copy.deepcopy(d)]),
+                           body=[ast.Assign(targets=[ast.Subscript(value=copy.deepcopy(d), slice=copy.deepcopy(key), ctx=ast.Store())],
+                                            value=dflt, lineno=st.lineno)], orelse=[], lineno=st.lineno)
+            get = ast.Assign(targets=[st.targets[0]], value=ast.Subscript(value=copy.deepcopy(d), slice=copy.deepcopy(key), ctx=ast.Load()),
+                             lineno=st.lineno)
+            return self.stmts([ast.fix_missing_locations(guard), ast.fix_missing_locations(get)] + list(rest), env, k, top)
         if isinstance(st, ast.Assign) and len(st.targets) == 1 and isinstance(st.targets[0], ast.Name):
             x = st.targets[0].id
             if isinstance(st.value, ast.Subscript) and ast.unparse(st.value.value) == SYMDICT:
@@ -519,6 +543,141 @@ def assert_is_pattern(p):
 '''
 
 
+def names_in(node):
+    return [n.id for n in ast.walk(node) if isinstance(n, ast.Name)]
+
+
+def canon_branch(body, helpers, counter):
+    """canonical form of the statements of a dispatch arm (equivalences that hold by construction):
+       * a module-level / nested helper function `_h` called with plain names: its body inlined, parameters
+         substituted, locals renamed, a final `return E` turned into the assignment at the call site
+         (`a, b = _h(x)` with `return u, v` becomes `a = u; b = v`)
+       * `r = []; for t in R: r.append(E)`            ==  `r = [E for t in R]`
+       * `x = E; x.reverse()`                          ==  `x = list(reversed(E))`
+       * `x = E` (E free of reads and calls with effects) used exactly once, in the next statement == E there"""
+    import copy
+    out = []
+    i = 0
+    body = list(body)
+    while i < len(body):
+        st = body[i]
+        # ---- helper inlining
+        call, targets = None, None
+        if isinstance(st, ast.Expr) and isinstance(st.value, ast.Call):
+            call = st.value
+        elif isinstance(st, ast.Assign) and len(st.targets) == 1 and isinstance(st.value, ast.Call):
+            call, targets = st.value, st.targets[0]
+        if call is not None and isinstance(call.func, ast.Name) and call.func.id in helpers \
+                and not (isinstance(targets, ast.Name) and targets.id == '_'):
+            fn = helpers[call.func.id]
+            params = [a.arg for a in fn.args.args]
+            if call.keywords or len(call.args) != len(params) or fn.args.vararg or fn.args.kwarg or fn.args.kwonlyargs \
+                    or fn.args.defaults or not all(isinstance(a, ast.Name) for a in call.args):
+                fail('helper function call outside the subset', st)
+            counter[0] += 1
+            n = counter[0]
+            hb = list(fn.body)
+            if hb and isinstance(hb[0], ast.Expr) and isinstance(hb[0].value, ast.Constant) and isinstance(hb[0].value.value, str):
+                hb = hb[1:]
+            sub = {p: a.id for p, a in zip(params, call.args)}
+            locals_ = {nd.id for b in hb for nd in ast.walk(b) if isinstance(nd, ast.Name) and isinstance(nd.ctx, ast.Store)}
+            if locals_ & set(sub):
+                fail('helper function assigns to its parameter', st)
+
+            class T(ast.NodeTransformer):
+                def visit_Name(self, node):
+                    if node.id in sub:
+                        return ast.copy_location(ast.Name(id=sub[node.id], ctx=node.ctx), node)
+                    if node.id in locals_:
+                        return ast.copy_location(ast.Name(id=f'h{n}_{node.id}', ctx=node.ctx), node)
+                    return node
+            hb = [T().visit(copy.deepcopy(b)) for b in hb]
+            for b in hb[:-1]:
+                if any(isinstance(nd, ast.Return) for nd in ast.walk(b)):
+                    fail('helper function returns early', st)
+            tail = []
+            if hb and isinstance(hb[-1], ast.Return):
+                ret = hb.pop()
+                if targets is None:
+                    if ret.value is not None and not (isinstance(ret.value, ast.Constant) and ret.value.value is None):
+                        fail('value of a helper function is dropped', st)
+                elif isinstance(targets, ast.Tuple) and isinstance(ret.value, ast.Tuple) and len(targets.elts) == len(ret.value.elts) \
+                        and all(isinstance(e, ast.Name) for e in targets.elts + ret.value.elts):
+                    tail = [ast.Assign(targets=[t], value=v, lineno=st.lineno) for t, v in zip(targets.elts, ret.value.elts)]
+                elif isinstance(targets, ast.Name) and ret.value is not None:
+                    tail = [ast.Assign(targets=[targets], value=ret.value, lineno=st.lineno)]
+                else:
+                    fail('helper function result unpacked in a way outside the subset', st)
+            elif targets is not None:
+                fail('helper function without return used for its value', st)
+            body[i:i + 1] = [ast.fix_missing_locations(b) for b in hb + tail]
+            continue
+        # ---- append loop -> comprehension
+        if i + 1 < len(body) and isinstance(st, ast.Assign) and len(st.targets) == 1 and isinstance(st.targets[0], ast.Name) \
+                and isinstance(st.value, ast.List) and not st.value.elts and isinstance(body[i + 1], ast.For):
+            r, loop = st.targets[0].id, body[i + 1]
+            if not loop.orelse and isinstance(loop.target, ast.Name) and len(loop.body) == 1 and isinstance(loop.body[0], ast.Expr) \
+                    and isinstance(loop.body[0].value, ast.Call) and ast.unparse(loop.body[0].value.func) == f'{r}.append' \
+                    and len(loop.body[0].value.args) == 1 and r not in names_in(loop.body[0].value.args[0]) + names_in(loop.iter):
+                comp = ast.ListComp(elt=loop.body[0].value.args[0],
+                                    generators=[ast.comprehension(target=loop.target, iter=loop.iter, ifs=[], is_async=0)])
+                body[i:i + 2] = [ast.fix_missing_locations(ast.Assign(targets=[st.targets[0]], value=comp, lineno=st.lineno))]
+                continue
+        # ---- x = E; x.reverse()
+        if i + 1 < len(body) and isinstance(st, ast.Assign) and len(st.targets) == 1 and isinstance(st.targets[0], ast.Name) \
+                and isinstance(body[i + 1], ast.Expr) and ast.unparse(body[i + 1]) == f'{st.targets[0].id}.reverse()':
+            rv = ast.Call(func=ast.Name(id='list', ctx=ast.Load()),
+                          args=[ast.Call(func=ast.Name(id='reversed', ctx=ast.Load()), args=[st.value], keywords=[])], keywords=[])
+            body[i:i + 2] = [ast.fix_missing_locations(ast.Assign(targets=[st.targets[0]], value=rv, lineno=st.lineno))]
+            continue
+        # ---- a local that is only a second name for another local
+        if isinstance(st, ast.Assign) and len(st.targets) == 1 and isinstance(st.targets[0], ast.Name) \
+                and isinstance(st.value, ast.Name) and st.targets[0].id != '_' and st.targets[0].id != st.value.id:
+            x, y = st.targets[0].id, st.value.id
+            later_stores = [nd.id for b in body[i + 1:] for nd in ast.walk(b)
+                            if isinstance(nd, ast.Name) and isinstance(nd.ctx, ast.Store)]
+            if x not in later_stores and y not in later_stores:
+                class A(ast.NodeTransformer):
+                    def visit_Name(self, node):
+                        if node.id == x:
+                            return ast.copy_location(ast.Name(id=y, ctx=node.ctx), node)
+                        return node
+                body[i:] = [ast.fix_missing_locations(A().visit(copy.deepcopy(b))) for b in body[i + 1:]]
+                continue
+        # ---- a pure local used exactly once, in the next statement
+        if i + 1 < len(body) and isinstance(st, ast.Assign) and len(st.targets) == 1 and isinstance(st.targets[0], ast.Name) \
+                and pure_listexpr(st.value):
+            x = st.targets[0].id
+            uses_next = names_in(body[i + 1]).count(x)
+            uses_later = sum(names_in(b).count(x) for b in body[i + 2:])
+            if uses_next == 1 and uses_later == 0 and not isinstance(body[i + 1], (ast.If, ast.For, ast.While)):
+                val = st.value
+
+                class S(ast.NodeTransformer):
+                    def visit_Name(self, node):
+                        if node.id == x and isinstance(node.ctx, ast.Load):
+                            return copy.deepcopy(val)
+                        return node
+                body[i:i + 2] = [ast.fix_missing_locations(S().visit(copy.deepcopy(body[i + 1])))]
+                continue
+        if isinstance(st, ast.If):
+            st = copy.copy(st)
+            st.body = canon_branch(st.body, helpers, counter)
+            st.orelse = canon_branch(st.orelse, helpers, counter)
+        out.append(st)
+        i += 1
+    return out
+
+
+def pure_listexpr(e):
+    """built from names with list / zip / reversed / dict only: no byte is read, nothing is called on the interpreter"""
+    if isinstance(e, ast.Name):
+        return True
+    if isinstance(e, ast.Call) and isinstance(e.func, ast.Name) and e.func.id in ('list', 'zip', 'reversed', 'dict'):
+        return all(pure_listexpr(a) for a in e.args) and all(isinstance(k.value, ast.Constant) for k in e.keywords)
+    return False
+
+
 class Deser:
     """dispatch branches -> Gallina of type option (option call * list N), threading `bs`.
     statements: x = next_byte(..); assert x is not None; x = interpreter.stack[-k];
@@ -527,9 +686,10 @@ class Deser:
       if not interpreter.claims: raise; x = interpreter.claims[0]; if x.pattern != y.conclusion: raise;
       phase dispatch on interpreter.phase; the Instantiate idiom (keys / target / values / delta / isinstance dispatch)"""
 
-    def __init__(self, opnames, interp):
+    def __init__(self, opnames, interp, helpers=None):
         self.opnames, self.I = opnames, interp
         self.n = 0
+        self.helpers = helpers or {}
 
     def fresh(self, base):
         self.n += 1
@@ -572,8 +732,15 @@ class Deser:
             return f'(var_mk {cname(e.args[0].id)})'
         if kind == 'vars' and isinstance(e, ast.Tuple) and not e.elts:
             return '[]'
+        # tuple(map(EVar, l)) == tuple(EVar(v) for v in l)
+        if kind == 'vars' and isinstance(e, ast.Call) and isinstance(e.func, ast.Name) and e.func.id in ('tuple', 'list') \
+                and len(e.args) == 1 and isinstance(e.args[0], ast.Call) and isinstance(e.args[0].func, ast.Name) \
+                and e.args[0].func.id == 'map' and len(e.args[0].args) == 2 and isinstance(e.args[0].args[0], ast.Name) \
+                and e.args[0].args[0].id in ('EVar', 'SVar') and isinstance(e.args[0].args[1], ast.Name) \
+                and env.get(e.args[0].args[1].id) == 'listN':
+            return f'(map var_mk {cname(e.args[0].args[1].id)})'
         if kind == 'vars' and isinstance(e, ast.Call) and isinstance(e.func, ast.Name) and e.func.id == 'tuple' and len(e.args) == 1 \
-                and isinstance(e.args[0], ast.GeneratorExp) and len(e.args[0].generators) == 1:
+                and isinstance(e.args[0], (ast.GeneratorExp, ast.ListComp)) and len(e.args[0].generators) == 1:
             g = e.args[0]
             gen = g.generators[0]
             if isinstance(gen.target, ast.Name) and not gen.ifs and isinstance(gen.iter, ast.Name) and env.get(gen.iter.id) == 'listN' \
@@ -652,6 +819,10 @@ class Deser:
             tg, v = st.targets[0], st.value
             if isinstance(tg, ast.Name):
                 x = tg.id
+                if isinstance(v, ast.Name) and v.id in env and env[v.id] != 'assert_is_pattern':
+                    env2 = dict(env)
+                    env2[x] = env[v.id]                 # a second name for the same value
+                    return f'(let {cname(x)} := {cname(v.id)} in {self.stmts(rest, env2)})'
                 if isinstance(v, ast.Call) and isinstance(v.func, ast.Name) and v.func.id == 'next_byte' and len(v.args) == 1:
                     env2 = dict(env)
                     env2[x] = 'N'
@@ -673,8 +844,15 @@ class Deser:
                     return (f'match take_n (N.to_nat {cname(r.args[0].id)}) bs with Some ({cname(x)}, bs) => '
                             f'{self.stmts(rest, env2)} | None => None end')
                 # values = map(assert_is_pattern, reversed(interpreter.stack[-(n + 1) : -1]))
+                # [f(p) for p in E] with f a plain name == map(f, E) (every element is consumed by the strict zip)
+                if isinstance(v, ast.ListComp) and len(v.generators) == 1 and not v.generators[0].ifs \
+                        and isinstance(v.generators[0].target, ast.Name) and isinstance(v.elt, ast.Call) \
+                        and isinstance(v.elt.func, ast.Name) and len(v.elt.args) == 1 and not v.elt.keywords \
+                        and isinstance(v.elt.args[0], ast.Name) and v.elt.args[0].id == v.generators[0].target.id \
+                        and self.is_expect_pattern(v.elt.func, env):
+                    v = ast.Call(func=ast.Name(id='map', ctx=ast.Load()), args=[v.elt.func, v.generators[0].iter], keywords=[])
                 if isinstance(v, ast.Call) and isinstance(v.func, ast.Name) and v.func.id == 'map' and len(v.args) == 2 \
-                        and isinstance(v.args[0], ast.Name) and env.get(v.args[0].id) == 'assert_is_pattern':
+                        and isinstance(v.args[0], ast.Name) and self.is_expect_pattern(v.args[0], env):
                     n = self.below_top(v.args[1], env)
                     env2 = dict(env)
                     env2[x] = 'pats'
@@ -692,7 +870,7 @@ class Deser:
                     env2 = dict(env)
                     env2[x] = 'claim'
                     return f'match t_claims tr with {cname(x)} :: _ => {self.stmts(rest, env2)} | [] => None end'
-            if isinstance(tg, ast.Tuple) and all(isinstance(e, ast.Name) for e in tg.elts) and isinstance(v, ast.GeneratorExp) \
+            if isinstance(tg, ast.Tuple) and all(isinstance(e, ast.Name) for e in tg.elts) and isinstance(v, (ast.GeneratorExp, ast.ListComp)) \
                     and ast.unparse(v.elt) == 'read_list()' and len(v.generators) == 1 \
                     and ast.unparse(v.generators[0].iter) == f'range({len(tg.elts)})' and not v.generators[0].ifs:
                 env2 = dict(env)
@@ -760,14 +938,21 @@ class Deser:
                     return cname(lo.operand.left.id)
         fail('stack slice outside the subset', e)
 
+    def is_expect_pattern(self, f, env):
+        """a nested or module-level function that is `assert isinstance(p, Pattern); return p`"""
+        if env.get(f.id) == 'assert_is_pattern':
+            return True
+        h = self.helpers.get(f.id)
+        return h is not None and alpha(h) == alpha(ast.parse(REF_ASSERT_IS_PATTERN).body[0])
+
     def zipexpr(self, e, env):
-        """[reversed(list(] zip(keys, values, strict=True) [))] -> (zip text, post-processing)"""
-        post = ''
-        if isinstance(e, ast.Call) and isinstance(e.func, ast.Name) and e.func.id == 'reversed' and len(e.args) == 1:
-            post = 'rev'
+        """any nesting of list(..) / reversed(..) around zip(keys, values, strict=True) -> (zip text, rev | id)"""
+        nrev = 0
+        while isinstance(e, ast.Call) and isinstance(e.func, ast.Name) and e.func.id in ('reversed', 'list') \
+                and len(e.args) == 1 and not e.keywords:
+            nrev += e.func.id == 'reversed'
             e = e.args[0]
-        if isinstance(e, ast.Call) and isinstance(e.func, ast.Name) and e.func.id == 'list' and len(e.args) == 1:
-            e = e.args[0]
+        post = 'rev' if nrev % 2 else ''
         if isinstance(e, ast.Call) and isinstance(e.func, ast.Name) and e.func.id == 'zip' and len(e.args) == 2 \
                 and [(k.arg, ast.unparse(k.value)) for k in e.keywords] == [('strict', 'True')] \
                 and all(isinstance(a, ast.Name) for a in e.args) and env.get(e.args[0].id) == 'listN' and env.get(e.args[1].id) == 'pats':
@@ -825,6 +1010,8 @@ def deserializer(src, opnames):
     if len(fns) != 1:
         fail('deserialize_instructions not found')
     fn = fns[0]
+    # private module-level helper functions: inlined where the dispatch calls them
+    helpers = {n.name: n for n in tree.body if isinstance(n, ast.FunctionDef) and n.name.startswith('_')}
     if len(fn.args.args) != 2:
         fail('deserialize_instructions: parameters changed', fn)
     data, interp = fn.args.args[0].arg, fn.args.args[1].arg
@@ -838,6 +1025,17 @@ def deserializer(src, opnames):
         if alpha(got).replace(f"id='{data}'", "id='data'") != alpha(want).replace(f"id='{data}'", "id='data'"):
             fail('byte reader differs from the reference (maybe_next_byte / next_byte / read_list)', got)
     loop = body[-1]
+    # `while True: x = E; if x is None: break; ...`  ==  `while (x := E) is not None: ...`
+    if isinstance(loop, ast.While) and isinstance(loop.test, ast.Constant) and loop.test.value is True and len(loop.body) >= 2 \
+            and isinstance(loop.body[0], ast.Assign) and len(loop.body[0].targets) == 1 and isinstance(loop.body[0].targets[0], ast.Name) \
+            and isinstance(loop.body[1], ast.If) and not loop.body[1].orelse and len(loop.body[1].body) == 1 \
+            and isinstance(loop.body[1].body[0], ast.Break) \
+            and ast.unparse(loop.body[1].test) == f'{loop.body[0].targets[0].id} is None' \
+            and not any(isinstance(nd, (ast.Break, ast.Continue)) for b in loop.body[2:] for nd in ast.walk(b)):
+        x = loop.body[0].targets[0].id
+        test = ast.Compare(left=ast.NamedExpr(target=ast.Name(id=x, ctx=ast.Store()), value=loop.body[0].value),
+                           ops=[ast.IsNot()], comparators=[ast.Constant(value=None)])
+        loop = ast.fix_missing_locations(ast.While(test=test, body=loop.body[2:], orelse=loop.orelse, lineno=loop.lineno))
     refloop = ast.parse(REF_LOOPHEAD).body[0]
     if not isinstance(loop, ast.While) or loop.orelse or len(loop.body) != 2:
         fail('the loop is not `while byte: try Instruction(byte); dispatch`', loop)
@@ -848,7 +1046,9 @@ def deserializer(src, opnames):
     if alpha(head) != alpha(refloop):
         fail('loop head differs from the reference', loop)
     instr = loop.body[0].body[0].targets[0].id
-    D = Deser(opnames, interp)
+    D = Deser(opnames, interp, helpers)
+    counter = [0]
+    _stmts = D.stmts
     chain = loop.body[1]
     branches = []
     if isinstance(chain, ast.Match):
@@ -867,7 +1067,7 @@ def deserializer(src, opnames):
             if not (isinstance(pt, ast.MatchValue) and isinstance(pt.value, ast.Attribute)
                     and ast.unparse(pt.value.value) == 'Instruction' and pt.value.attr in opnames):
                 fail('case pattern is not `Instruction.X`', chain)
-            branches.append((pt.value.attr, D.stmts(case.body, {})))
+            branches.append((pt.value.attr, D.stmts(canon_branch(case.body, helpers, counter), {})))
         if len({b for b, _ in branches}) != len(branches):
             fail('an Instruction has two arms')
         return branches
@@ -879,7 +1079,7 @@ def deserializer(src, opnames):
                 and t.left.id == instr and isinstance(t.comparators[0], ast.Attribute)
                 and ast.unparse(t.comparators[0].value) == 'Instruction' and t.comparators[0].attr in opnames):
             fail('dispatch test is not `instruction == Instruction.X`', chain)
-        branches.append((t.comparators[0].attr, D.stmts(chain.body, {})))
+        branches.append((t.comparators[0].attr, D.stmts(canon_branch(chain.body, helpers, counter), {})))
         if len(chain.orelse) == 1 and isinstance(chain.orelse[0], ast.If):
             chain = chain.orelse[0]
             continue
